@@ -446,3 +446,99 @@ pub fn u_set_public_key() {
     assert!(err_kind(&res) != 4 && err_kind(&res) != 5, "C08: setting a valid public key never reports identity-scheme or RLP errors");
     core::mem::forget(e);
 }
+
+fn build_kind(r: &Result<Enr<MKey>, Error>) -> u8 {
+    match r {
+        Ok(_) => 0u8,
+        Err(Error::ExceedsMaxSize) => 1,
+        Err(Error::SequenceNumberTooHigh) => 2,
+        Err(Error::SigningError) => 3,
+        Err(Error::UnsupportedIdentityScheme) => 4,
+        Err(Error::InvalidRlpData(_)) => 5,
+    }
+}
+
+/// obligations on the outcome of Builder::build given the pairs the model predicts
+#[inline(always)]
+fn build_obligations(r: &Result<Enr<MKey>, Error>, signer: &MKey, seq: u64, want: &Pairs, valid: bool) {
+    let content_len = ref_content_len(seq, want);
+    let full_len = ref_record_len(signer.sig_len as usize, seq, want);
+    let kind = build_kind(r);
+    let ok = kind == 0;
+    vcover!(ok, "build Ok");
+    vcover!(kind == 1, "Err(ExceedsMaxSize)");
+    vcover!(kind == 3, "Err(SigningError)");
+    if let Ok(e) = r {
+        let s = snap(e);
+        let size = e.size();
+        let pairs_model = pairs_are(e, want);
+        let want_sig = ref_mac(signer.id, seq, want);
+        let sig_ok = s.sig_len == signer.sig_len as usize && sym::eq_short(&s.sig[..s.sig_len], &want_sig[..s.sig_len]);
+        let nid = sym::eq32(&s.node_id, &hdigest(&[signer.id]));
+        let nid_pk = sym::eq32(&NodeId::from(e.public_key()).raw(), &s.node_id);
+        assert!(pairs_model, "C08: a built record holds the builder's pairs plus id=v4 and the signer's public key");
+        assert!(sig_ok, "C05: a built record carries the signer's signature over its content");
+        assert!(nid, "C05: the node id of a built record is the hash of the signer's public key");
+        assert!(nid_pk, "C10: node id equals the id derived from the public-key accessor");
+        assert!(s.seq == seq, "C07: a built record has exactly the requested sequence number");
+        assert!(size == full_len, "C09: size() equals the length of the encoding predicted from the parts");
+        assert!(size <= MAXSZ, "C09: no record handed out exceeds the size limit");
+        assert!(valid, "C05: the builder refuses raw values that are not exactly one RLP item");
+    }
+    assert!(kind != 5 || !valid, "C08: InvalidRlpData is reported only for a malformed value");
+    assert!(valid || kind == 5, "C08: a raw value that is not exactly one RLP item is refused with InvalidRlpData");
+    assert!(kind != 3 || signer.fail, "C08: SigningError is reported only when the signer failed");
+    assert!(kind != 2 && kind != 4, "C08: the v4 builder reports neither sequence nor identity-scheme errors");
+    // size rule of the builder: refuses everything above the limit, may refuse within 8 bytes of it
+    assert!(!(full_len > MAXSZ) || !ok, "C09: the builder refuses every result above the limit");
+    assert!(kind != 1 || content_len + signer.sig_len as usize + 8 > MAXSZ, "C09: the builder refuses for size only by its documented rule (content + signature + 8 > limit)");
+    assert!(kind != 1 || full_len + 8 > MAXSZ, "C09: the builder never refuses a result more than 8 bytes below the limit");
+    assert!(ok || signer.fail || !valid || kind == 1, "C08: a build fails only for a cause that is present");
+}
+
+/// Builder: any seq, tcp4(any port), build with a symbolic signer
+#[cfg_attr(kani, kani::proof)]
+#[cfg_attr(kani, kani::stub(enr::digest, digest_stub))]
+#[cfg_attr(kani, kani::stub(enr::Enr::id, id_stub))]
+#[cfg_attr(kani, kani::stub(<[u8]>::to_vec, to_vec_stub))]
+pub fn u_build() {
+    let seq = sym::u64();
+    let signer = any_key();
+    let port = sym::u16();
+    let mut b = Enr::<MKey>::builder();
+    b.seq(seq);
+    b.tcp4(port);
+    let r = b.build(&signer);
+    core::mem::forget(b);
+    let (pe, pn) = ref_port_enc(port);
+    let kraw = [0x81u8, signer.id];
+    let want: [(&[u8], &[u8]); 3] = [(b"id", &ID_RAW), (KNAME, &kraw), (b"tcp", &pe[..pn])];
+    let tcp_back = match &r { Ok(e) => e.tcp4(), Err(_) => Some(port) };
+    build_obligations(&r, &signer, seq, &want, true);
+    assert!(tcp_back == Some(port), "C14: a port given to the builder reads back as the value set");
+    core::mem::forget(r);
+}
+
+/// Builder: any seq, one raw custom value of 0..=3 arbitrary (possibly malformed) bytes
+#[cfg_attr(kani, kani::proof)]
+#[cfg_attr(kani, kani::stub(enr::digest, digest_stub))]
+#[cfg_attr(kani, kani::stub(enr::Enr::id, id_stub))]
+#[cfg_attr(kani, kani::stub(<[u8]>::to_vec, to_vec_stub))]
+pub fn u_build_raw() {
+    let seq = sym::u64();
+    let signer = any_key();
+    let raw: [u8; 3] = sym::bytes::<3>();
+    let n = sym::usize();
+    sym::assume(n <= 3);
+    let valid = ref_single_item(&raw[..n]);
+    let mut b = Enr::<MKey>::builder();
+    b.seq(seq);
+    b.add_value_rlp("x", mk_bytes(&raw[..n]));
+    let r = b.build(&signer);
+    core::mem::forget(b);
+    let kraw = [0x81u8, signer.id];
+    let want: [(&[u8], &[u8]); 3] = [(b"id", &ID_RAW), (KNAME, &kraw), (b"x", &raw[..n])];
+    vcover!(build_kind(&r) == 5, "Err(InvalidRlpData)");
+    build_obligations(&r, &signer, seq, &want, valid);
+    core::mem::forget(r);
+}
